@@ -1,8 +1,8 @@
 SPECIFICATION Spec
 CONSTANTS
-  Dev = {"sticky-succs"}
-  MaxCalls = 3
-  Classes = FALSE
+  Dev = {"fold-succs"}
+  MaxCalls = 2
+  Classes = TRUE
   MaxOps = 5
 INVARIANTS SuccsLive
 VIEW View
